@@ -25,6 +25,7 @@ fn sdes_case(s: &[u8], l: &mut Local) {
     l.nontrivial(fp_bytes(s));
     let tok = read::sdes_tokenise(s);
     l.transitions += 1;
+    let l_idx = l.cur_idx;
     let r = guard::catch(|| match Sdes::parse(s) {
         Err(e) => Err(e),
         Ok(sd) => {
@@ -39,6 +40,37 @@ fn sdes_case(s: &[u8], l: &mut Local) {
             };
             if !same {
                 return Ok((Err(observe::ObsErr::Other("after its accessors were called, the parsed value is no longer equal to a fresh parse of the same bytes".into())), lens));
+            }
+            // the same packet reached by another route - a clone, the generic parser and its conversions, an unknown
+            // packet's conversion, the compound iteration; one of them per case, by the case index - reads the same
+            let h = l_idx ^ (l_idx >> 3) ^ (l_idx >> 8) ^ (l_idx >> 15);
+            let route = h % 7;
+            let other: Result<Vec<Chunk>, String> = (|| {
+                let o = |x: &Sdes| observe::obs_chunks(x, s.len()).map_err(|e| format!("{:?}", e));
+                match route {
+                    0 => o(&sd.clone()),
+                    1 => o(&Packet::parse(s).map_err(|e| format!("Packet::parse = {:?}", e))?.try_as::<Sdes>().map_err(|e| format!("try_as = {:?}", e))?),
+                    2 => o(&Sdes::try_from(&Packet::parse(s).map_err(|e| format!("Packet::parse = {:?}", e))?).map_err(|e| format!("try_from(&Packet) = {:?}", e))?),
+                    3 => o(&Sdes::try_from(Packet::parse(s).map_err(|e| format!("Packet::parse = {:?}", e))?).map_err(|e| format!("try_from(Packet) = {:?}", e))?),
+                    4 => o(&Unknown::parse(s).map_err(|e| format!("Unknown::parse = {:?}", e))?.try_as::<Sdes>().map_err(|e| format!("Unknown::try_as = {:?}", e))?),
+                    5 => match Compound::parse(s).map_err(|e| format!("Compound::parse = {:?}", e))?.next() {
+                        Some(Ok(Packet::Sdes(x))) => o(&x),
+                        other => Err(format!("the compound yields {:?}", other.map(|r| r.map(|_| "another packet")))),
+                    },
+                    _ => {
+                        // a clone of a clone, observed after the original was dropped
+                        let c2 = {
+                            let c1 = sd.clone();
+                            c1.clone()
+                        };
+                        o(&c2)
+                    }
+                }
+            })();
+            match (&other, &chunks) {
+                (Ok(a), Ok(b)) if a == b => {}
+                (Ok(_), Err(_)) => {}
+                _ => return Ok((Err(observe::ObsErr::Other(format!("reached by route {} (0 clone, 1 Packet::try_as, 2 TryFrom<&Packet>, 3 TryFrom<Packet>, 4 Unknown::try_as, 5 Compound, 6 clone of a clone) the packet reads {:?}", route, other))), lens)),
             }
             Ok((chunks, lens))
         }
